@@ -238,7 +238,9 @@ func (s *session) residentStep(hist, src string, intent byte, nforms int, tree *
 	mainFn := s.env.VerifMainFunc()
 	before := len(mainFn.VerifCode())
 	// the replay of anything observed here is the whole history so far, not the last text alone
-	r := s.evalWith(hist+src, func(env *zygo.Zlisp) error { return env.LoadString(src) }, tags)
+	s.dSrc = hist + src
+	r := s.evalWith(src, func(env *zygo.Zlisp) error { return env.LoadString(src) }, tags)
+	s.dSrc = ""
 	vec, par := residentVec(s.env)
 	grew := s.env.VerifMainFunc() == mainFn && len(mainFn.VerifCode()) > before
 	var item string
